@@ -222,6 +222,8 @@ func run(c Case) (out Outcome) {
 		return out
 	}
 	nonces := 0
+	var lowV *Violation
+	lowAt := 0
 	for i, op := range c.Ops {
 		if m.tainted != "" {
 			break
@@ -307,7 +309,9 @@ func run(c Case) (out Outcome) {
 			}
 			judge := func() *Violation { return m.Data(i, op, wire, tok, em) }
 			if op.Van {
-				judge = func() *Violation { return m.Vanished(op, em, func() *Violation { return m.Data(i, op, wire, tok, em) }) }
+				judge = func() *Violation {
+					return m.Vanished(op, em, func() *Violation { return m.Data(i, op, wire, tok, em) })
+				}
 			}
 			if v := judge(); v != nil {
 				return fail(i, v)
@@ -317,8 +321,20 @@ func run(c Case) (out Outcome) {
 		// entries with a live in-record must exist
 		lo, hi := m.PitBounds()
 		if n := th.GetNumPitEntries(); m.tainted == "" && (n < lo || n > hi) {
-			return fail(i, viol("C08", "after op #%d at +%dms the PIT holds %d entries; between %d and %d are possible (entries: %s)", i, m.now/ms, n, lo, hi, m.pitString()))
+			v := viol("C08", "after op #%d at +%dms the PIT holds %d entries; between %d and %d are possible (entries: %s)", i, m.now/ms, n, lo, hi, m.pitString())
+			if n > hi {
+				return fail(i, v)
+			}
+			// too few: an entry with a live in-record is gone. The history goes on, so that the
+			// consequence for that face (Data that no longer reaches it: C01) can show; if nothing
+			// else is found the missing entry itself is reported at the end
+			if lowV == nil {
+				lowV, lowAt = v, i
+			}
 		}
+	}
+	if lowV != nil {
+		return fail(lowAt, lowV)
 	}
 	out.Tainted = m.tainted
 	if os.Getenv("VERIF_TRACE") != "" {
